@@ -461,6 +461,22 @@ Example master_wallet_answers_at_the_requested_path :
      Some [([(84, true); (0, true); (2, true)], "bitcoin"%string, 2)]; None].
 Proof. vm_compute. reflexivity. Qed.
 
+(* --- fixed-width serialisation: the HMAC input of a hardened child is 0x00 || ser256(k) || ser32(i), 37 bytes for
+   EVERY parent key, and the 32 key bytes read back as k: a private key that starts with zero bytes keeps them
+   (BIP32 test vector 3; exercised on real wallets by the frozen corpus of harness/props/c09.py) --- *)
+Theorem hardened_parent_key_is_serialised_on_32_bytes : forall k i,
+  0 <= k < 2 ^ 256 ->
+  length (x00 :: be_bytes 32 k ++ be_bytes 4 i) = 37%nat /\
+  length (be_bytes 32 k) = 32%nat /\ of_be (be_bytes 32 k) = k.
+Proof. exact hardened_data_fixed_width_lemma. Qed.
+
+Theorem private_key_serialisation_is_injective : forall a b,
+  0 <= a < 2 ^ 256 -> 0 <= b < 2 ^ 256 -> be_bytes 32 a = be_bytes 32 b -> a = b.
+Proof. exact ser256_injective_lemma. Qed.
+
+Example ser256_keeps_leading_zeros : be_bytes 32 0xdd = repeat x00 31 ++ [xdd].
+Proof. vm_compute. reflexivity. Qed.
+
 Print Assumptions path_is_documented.
 Print Assumptions structure_table_total.
 Print Assumptions account_level_path_is_documented.
@@ -500,3 +516,5 @@ Print Assumptions handed_out_key_is_at_documented_path_for_requested_type.
 Print Assumptions new_keys_hand_out_documented_paths.
 Print Assumptions parent_column_names_the_row_above.
 Print Assumptions key_request_guards_are_the_documented_ones.
+Print Assumptions hardened_parent_key_is_serialised_on_32_bytes.
+Print Assumptions private_key_serialisation_is_injective.
